@@ -106,60 +106,88 @@ theorem nextArgOffset_scalar (fuel : Nat) (c : Cell) (more : List Cell) (h : c.i
   unfold nextArgOffset
   cases c <;> simp_all [deref, ArgVal.Cell.isScalar, bind, Except.bind, pure, Except.pure]
 
+/-- `can_precede_range` of a scalar value -/
+theorem canPrecedeRange_scalar (c : Cell) (more : List Cell) (h : c.isScalar = true) :
+    canPrecedeRange (c :: more) = .ok true := by
+  unfold canPrecedeRange
+  cases c <;> simp_all [deref, ArgVal.Cell.isScalar, bind, Except.bind, pure, Except.pure]
+
+/-- nothing is skipped in front of a token (`rtosc_scan_arg_vals` looks for white space and
+    comments in front of the first value) -/
+theorem skipSpaceComments_tokStart (fuel : Nat) (text : Bytes) (ht : TokStart text) :
+    skipSpaceComments (fuel + 1) text = .ok 0 := by
+  have h1 := skipSpace_tokStart text ht
+  have h37 : hd text ≠ 37 := ht.2.2.2.2.2.1
+  unfold skipSpaceComments
+  simp only [skipFmt_space, h1, Nat.sub_self, List.drop_zero, h37, ↓reduceIte]
+  rfl
+
 /-- the scanner's loop reads a token text back as its cells -/
 theorem scanLoop_tokText {cs : List Cell} {text : Bytes} (h : TokText cs text) :
-    ∀ (fuel n i : Nat) (done : List Cell) (rd : Nat), n = i + cs.length → cs.length + 1 ≤ fuel →
-      scanArgValsLoop fuel text n i done rd = .ok (rd + text.length, done ++ cs) := by
+    ∀ (fuel n i : Nat) (pok : Bool) (done : List Cell) (rd : Nat), n = i + cs.length → cs.length + 1 ≤ fuel →
+      scanArgValsLoop fuel text n i pok done rd = .ok (rd + text.length, done ++ cs) := by
   induction h with
   | nil =>
-    intro fuel n i done rd hn hf
+    intro fuel n i pok done rd hn hf
     cases fuel with
     | zero => omega
     | succ f =>
       simp at hn
       simp [scanArgValsLoop, hn, pure, Except.pure]
   | one t c ht hsc =>
-    intro fuel n i done rd hn hf
+    intro fuel n i pok done rd hn hf
     cases fuel with
     | zero => omega
     | succ f =>
       cases f with
       | zero => simp at hf
       | succ g =>
-        have hscan := ht.scan (t.length + 1) done.reverse i
+        have hscan := ht.scan (t.length + 1) done.reverse (if pok then i else 0)
         simp only [List.length_singleton] at hn
         unfold scanArgValsLoop
         have hlt : i < n := by omega
         simp only [hlt, ↓reduceIte, hscan, bind, Except.bind, advance, Nat.le_refl, List.drop_length,
           nextArgOffset_scalar _ c [] hsc, List.length_singleton, ne_eq, not_true_eq_false, List.length_nil,
-          skipSpaceComments_nil, List.drop_zero]
+          skipSpaceComments_nil, List.drop_zero, canPrecedeRange_scalar c [] hsc]
         unfold scanArgValsLoop
         have : ¬ (i + 1 < n) := by omega
         simp [this, pure, Except.pure]
   | cons t c sep cs text ht hsc hsep hne hrest ih =>
-    intro fuel n i done rd hn hf
+    intro fuel n i pok done rd hn hf
     cases fuel with
     | zero => omega
     | succ f =>
       have hstart := hrest.start hne
       have hS := sep_of_next sep text hsep hstart
-      have hscan := ht.scan (sep ++ text) ((t ++ (sep ++ text)).length + 1) done.reverse i hS
+      have hscan := ht.scan (sep ++ text) ((t ++ (sep ++ text)).length + 1) done.reverse (if pok then i else 0) hS
       simp only [List.length_cons] at hn hf
       unfold scanArgValsLoop
       have hlt : i < n := by omega
       have hadv : advance (t ++ (sep ++ text)) t.length = .ok (sep ++ text) := by
         simp [advance]
       simp only [hlt, ↓reduceIte, hscan, bind, Except.bind, hadv,
-        nextArgOffset_scalar _ c [] hsc, List.length_singleton, ne_eq, not_true_eq_false]
+        nextArgOffset_scalar _ c [] hsc, List.length_singleton, ne_eq, not_true_eq_false,
+        canPrecedeRange_scalar c [] hsc]
       have hlen : (sep ++ text).length + 1 = ((sep ++ text).length) + 1 := rfl
       rw [skipSpaceComments_sep _ sep text hsep hstart]
       simp only [List.drop_left]
-      rw [ih f n (i + 1) (done ++ [c]) (rd + t.length + sep.length) (by omega) (by omega)]
+      rw [ih f n (i + 1) true (done ++ [c]) (rd + t.length + sep.length) (by omega) (by omega)]
       simp only [List.length_append, List.append_assoc, List.singleton_append]
       congr 2
       omega
 
 
+
+/-- `rtosc_scan_arg_vals` reads a token text back as its cells -/
+theorem scanArgVals_tokText {cs : List Cell} {text : Bytes} (h : TokText cs text) :
+    scanArgVals text cs.length = .ok (text.length, cs) := by
+  unfold scanArgVals
+  have hsk : skipSpaceComments (text.length + 1) text = .ok 0 := by
+    by_cases hne : cs = []
+    · subst hne; cases h; exact skipSpaceComments_nil _
+    · exact skipSpaceComments_tokStart _ text (h.start hne)
+  have := scanLoop_tokText h (cs.length + 1) cs.length 0 true [] 0 (by simp) (Nat.le_refl _)
+  simpa [hsk, bind, Except.bind] using this
 
 theorem skipCommentLines_none (fuel : Nat) (s : Bytes) (h : hd s ≠ 37) : skipCommentLines (fuel + 1) s = .ok s := by
   unfold skipCommentLines; simp [h]
@@ -435,9 +463,7 @@ theorem list_roundtrip_of_tokens (opt : POpt) (args : List Cell)
     simpa using hrun
   · rw [hout]; exact countPrintedArgVals_tokText htt
   · rw [hout]
-    unfold scanArgVals
-    have := scanLoop_tokText htt (args.length + 1) args.length 0 [] 0 (by simp) (Nat.le_refl _)
-    simpa using this
+    exact scanArgVals_tokText htt
 
 
 end Rtosc.Pretty
